@@ -25,7 +25,7 @@ Fixpoint records_eq (a b : list (nat * scope)) : bool :=
 
 Definition scope_case : Set := (nat * node * list (nat * scope))%type.
 Definition check_scope (Q : quirks) (c : scope_case) : bool :=
-  match c with (_, t, ex) => records_eq (records Q fl0 t) ex end.
+  match c with (_, t, ex) => wf t && records_eq (records Q fl0 t) ex end.
 Definition failing_scopes (Q : quirks) (cs : list scope_case) : list nat :=
   map (fun c => match c with (i, _, _) => i end) (filter (fun c => negb (check_scope Q c)) cs).
 
@@ -44,6 +44,7 @@ with fns_list (ts : nodes) {struct ts} : list (node * node) :=
 Definition syminfo : Set := (list name * list name * list name * list name)%type.
 Definition binder_case : Set := (nat * nat * node * list syminfo)%type.   (* index, #names, tree, infos *)
 
+(* no quirk: CPython's rule *)
 Definition noq : quirks := mkq false false false.
 
 Definition check_fn (nmax : nat) (ab : node * node) (si : syminfo) : bool :=
